@@ -80,6 +80,18 @@ def c13(c):
             "// Bad consumes a type nobody provides.\nfunc Bad(ctx context.Context) error {\n\tvar out string\n"
             "\treturn cff.Flow(ctx, cff.Results(&out), cff.Task(func(i int) string { return \"\" }))\n}\n")
         log.run(cff, root, "pbad", "base", (), expectok=False)
+        # ... many of them: every single-defect mutation (missing / duplicate providers, cycles through tasks and
+        # predicates, unused values, stripped Invoke) of random well-formed graphs, many flows per file
+        wrng = random.Random(c.seed * 13 + r)
+        flows, k = [], 0
+        for b_ in range(12 if c.quick else 60):
+            g = W.gen_wf_graph(wrng, wrng.randint(2, 6))
+            for lab, mg in W.mutations(g, wrng):
+                k += 1
+                flows.append(("M%d" % k, mg, None))
+        maxk = max([1] + [ty for _, g, _ in flows for ty in g["params"] + g["results"] + [t for tk in g["tasks"] for t in tk["ins"] + tk["outs"] + tk["pins"]]])
+        W.write_pkg(root, "pbadwf", {"mut%d.go" % i: ch for i, ch in enumerate(W.chunks(flows, 120))}, maxk)
+        log.run(cff, root, "pbadwf", "base", (), expectok=False)
         log.judge("corpus %d" % r)
         if len(c.cov["samples"]) < 2:
             p = next(iter(pk.values()))[0]
